@@ -6,6 +6,8 @@ runDefers, callDeferredFunc, runVMFunc).
 -/
 import Anko.Proofs.EvalSig
 import Anko.Gen.StmtFlow
+import Anko.Gen.SingleStmtFlow
+import Anko.Props.SingleStmtFlowTable
 
 set_option linter.unusedSectionVars false
 set_option linter.unusedSimpArgs false
@@ -231,5 +233,13 @@ def tryAndDeferFlow : List (String × String) := [
 
 theorem try_and_defers_move_control_as_modelled :
     Gen.StmtFlow.leaves.filter (fun l => l.1 == "runTryStmt" || l.1 == "runDefers") = tryAndDeferFlow := by decide +kernel
+
+/-! ### The statement dispatcher, return, defer and the call of a deferred function in the source (regenerated: Gen/SingleStmtFlow)
+
+Every leaf statement of runSingleStmt (the context poll at every statement, expression statements, throw with its conversions of the thrown value, break /
+continue, go), runReturnStmt, runDeferStmt (the callee and the arguments are evaluated when the defer statement runs) and callDeferredFunc (the
+call under a recover), with the conditions it stands under, is the one written down in Props/SingleStmtFlowTable next to the model's execStmt. Any edit of these functions - also a harmless one - breaks this obligation by name; the check then
+searches model and implementation for a failing input (DESIGN.md 13.3). -/
+theorem throw_return_and_defer_statements_are_the_modelled_ones : Gen.SingleStmtFlow.leaves = Tables.singleStmtFlow := by decide +kernel
 
 end Anko.C09
